@@ -701,6 +701,27 @@ impl<'tcx> Cx<'tcx> {
                                 plocals.join(","),
                                 pblocks.join(",")
                             );
+                            // the constant's own promoted values (e.g. the array behind a `&[..]` table)
+                            let promoted = tcx.promoted_mir(did);
+                            for (pi, pbody) in promoted.iter_enumerated() {
+                                if pbody.basic_blocks.len() > 8 {
+                                    continue;
+                                }
+                                let mut ql = Vec::new();
+                                for d in pbody.local_decls.iter() {
+                                    ql.push(self.ty(d.ty));
+                                }
+                                let qb: Vec<String> = pbody.basic_blocks.iter().map(|bb| self.block(pbody, bb, env)).collect();
+                                let _ = writeln!(
+                                    out,
+                                    "{{\"rec\":\"promoted\",\"path\":{},\"def\":{},\"index\":{},\"locals\":[{}],\"blocks\":[{}]}}",
+                                    esc(&format!("{}::promoted[{}]", self.path(did), pi.as_usize())),
+                                    esc(&self.path(did)),
+                                    pi.as_usize(),
+                                    ql.join(","),
+                                    qb.join(",")
+                                );
+                            }
                         }
                     }
                     if matches!(t.kind(), ty::Uint(_) | ty::Int(_)) && tcx.generics_of(did).count() == 0 {
